@@ -1,5 +1,7 @@
 """C14 - status tells the truth about replica sets and pods."""
 import histgen
+import k8s as K
+import project as P
 import worldgen
 import wprop
 from wprop import classify_unencodable, sample  # noqa: F401
@@ -28,6 +30,7 @@ CODES = {
     13: "the Canary-Failed / Canary-Paused conditions disagree with the canary facts",
     14: "status.canary is set although no canary is active",
     15: "a replica-set status violates 0 <= available <= ready <= current <= desired",
+    16: "during a canary the Canary-Paused condition is True but names another reason than the one the canary is paused for (status.reason)",
     17: "status.activeReplicaSet names a replica set that was not listed",
     18: "at rest status.desired is not the number of eligible nodes, or current/ready/available not the number of daemon pods",
     19: "at rest status.upToDate is not the number of daemon pods of the up-to-date template",
@@ -40,6 +43,31 @@ def generate(rng, tier, stats):
     out = []
     for _ in range(150 if tier == "quick" else 2500):
         out.append(worldgen.gen_eds_world(rng, stats))
+    for _ in range(40 if tier == "quick" else 600):
+        # a pause whose reason changes while the Canary-Paused condition of the ExtendedDaemonSet stays True
+        # (paused by hand, then auto-paused; auto-paused for one reason, then another)
+        c = worldgen.gen_eds_world(rng, stats, {"scenario": "canary_running", "no_faults": True,
+                                                "annotations": rng.choice([{}, {P.A_PAUSED: "true"}, {P.A_PAUSED: "true", P.A_PAUSED_REASON: "because"}])})
+        was = rng.choice(["ManuallyPaused", "ImagePullBackOff", "CrashLoopBackOff", "because"])
+        now_r = rng.choice([None, "ImagePullBackOff", "CrashLoopBackOff", "SlowStartTimeout"])
+        for o in c["objects"]:
+            if o["kind"] == "ExtendedDaemonSet":
+                conds = o.setdefault("status", {}).setdefault("conditions", []) if o.get("status") else None
+                if conds is None:
+                    o["status"] = K.eds_status()
+                    conds = o["status"].setdefault("conditions", [])
+                if o["status"].get("conditions") is None:
+                    o["status"]["conditions"] = conds = []
+                conds[:] = [x for x in conds if x["type"] != "Canary-Paused"]
+                conds.append(K.cond("Canary-Paused", rng.choice(["True", "True", "False"]), trans=-90, reason=was))
+            if o["kind"] == "ExtendedDaemonSetReplicaSet" and o["metadata"]["name"] == "foo-b" and now_r is not None:
+                rc = o.setdefault("status", {}).setdefault("conditions", [])
+                if rc is None:
+                    o["status"]["conditions"] = rc = []
+                rc[:] = [x for x in rc if x["type"] not in ("Canary-Paused", "Canary-Failed")]
+                rc.append(K.cond("Canary-Paused", "True", trans=-30, reason=now_r))
+        wprop.bump(stats, "pause reason before/now", "%s/%s" % (was, now_r))
+        out.append(c)
     for _ in range(120 if tier == "quick" else 2000):
         out.append(worldgen.gen_ers_world(rng, stats, {"open_gates": rng.random() < 0.8}))
     for _ in range(25 if tier == "quick" else 400):
